@@ -37,6 +37,13 @@ const char *K_HTAB = "C24/leading-htab-not-stripped";
 const char *K_CHUNKEXT = "C24/chunk-ext-rejected";
 const char *K_NOLEN = "C24/no-length-with-connection-field-read-as-empty";
 const char *K_CLOSEOPT = "C24/close-option-not-honoured";
+const char *K_CONNECTCLOSE = "C24/connect-response-close-option-ignored";
+// which listed root cause (if any) explains that the connection was used again after response m
+const char *key_for_reuse(const h9112c::Resp &m) {
+  if (m.features & h9112c::C_CONNECT_OTHER) return K_CONNECTCLOSE;
+  if ((m.features & h9112c::C_CLOSE_OPT) && !(m.features & h9112c::C_CLOSE_OPT_PLAIN)) return K_CLOSEOPT;
+  return nullptr;
+}
 
 struct ReqSpec { int cmd; Method kind; bool close_opt; bool expect; std::string body; };
 
@@ -204,6 +211,8 @@ struct Gen {
     } else {
       body = chunked_body(eol); fl.push_back("Transfer-Encoding: chunked"); fl.push_back("Content-Length: " + std::to_string(s.flag() ? body.size() : s.below(8))); if (s.flag()) std::swap(fl[0], fl[1]);
     }
+    // a bodiless response (HEAD, 204, 304, CONNECT 2xx) is mostly sent the way a real server would: framing fields, no body bytes
+    if ((rq.kind == h9112c::M_HEAD || st == 204 || st == 304 || (rq.kind == h9112c::M_CONNECT && !connect_err)) && !s.chance(1, 8)) body.clear();
     for (auto &f : fl) { size_t at = s.below((uint32_t)lines.size() + 1); lines.insert(lines.begin() + at, f); }
     for (auto &l : lines) out += l + eol;
     out += eol; out += body;
@@ -357,7 +366,8 @@ void differential(const char *point, const Obs &o, const Result &R, const std::v
     switch (R.term) {
       case h9112c::T_REJECT: VERIF_FAIL(key_for_reason(R.reason), "[%s] the response for request %zu must be treated as an unrecoverable error (%s) but request %zu completed with a response: %s", point, n, R.reason.c_str(), i, show(o[i]).c_str());
       case h9112c::T_INCOMPLETE: VERIF_FAIL(k ? k : "C24/delivered-incomplete", "[%s] the stream ends inside the response for request %zu (%s) but request %zu completed with a response: %s", point, n, R.reason.c_str(), i, show(o[i]).c_str());
-      case h9112c::T_NOREUSE: VERIF_FAIL(k ? k : K_CLOSEOPT, "[%s] response %zu carried / answered the close connection option, so the connection must not serve another request (RFC 9112 9.6), but request %zu completed with a response taken from the bytes that followed: %s", point, n - 1, i, show(o[i]).c_str());
+      case h9112c::T_NOREUSE: if (key_for_reuse(R.msgs[n - 1])) k = key_for_reuse(R.msgs[n - 1]);
+        VERIF_FAIL(k ? k : "C24/reused-after-close", "[%s] response %zu carried / answered the close connection option, so the connection must not serve another request (RFC 9112 9.6), but request %zu completed with a response taken from the bytes that followed: %s", point, n - 1, i, show(o[i]).c_str());
       case h9112c::T_END: VERIF_FAIL(k ? k : "C24/delivered-beyond-stream", "[%s] the stream holds %zu response(s) but request %zu completed with a response: %s", point, n, i, show(o[i]).c_str());
       default: break;
     }
@@ -411,7 +421,7 @@ extern "C" int LLVMFuzzerTestOneInput(const uint8_t *data, size_t size) {
       for (size_t i = 0; i < R->msgs.size(); i++) { const Resp &m = R->msgs[i];
         const char *k = key_for_features(m.features, reqs[i], m.framing, m.cl);
         if (!k && (m.features & h9112c::C_HTAB_OWS)) k = K_HTAB;
-        if (!k && (m.features & h9112c::C_CLOSE_OPT) && !(m.features & h9112c::C_CLOSE_OPT_PLAIN) && m.end < stream.size()) k = K_CLOSEOPT;
+        if (!k && m.must_not_reuse && m.end < stream.size() && i + 1 < reqs.size()) k = key_for_reuse(m);
         if (k && verif_known(k)) { hit = k; at = m.begin; break; } }
       size_t n = R->msgs.size();
       if (!hit && n < reqs.size() && R->term != h9112c::T_END && R->term != h9112c::T_NOREUSE) {
